@@ -647,8 +647,12 @@ impl FatVolume {
                             // Checksum was bad
                             func(de, None)
                         }
+                        // The long name only belongs to this one entry
+                        seq_state = SeqState::Waiting;
                     } else {
-                        func(de, None)
+                        func(de, None);
+                        // A short entry ends any partial long name
+                        seq_state = SeqState::Waiting;
                     }
                 })
             }
@@ -664,8 +668,12 @@ impl FatVolume {
                             // Checksum was bad
                             func(de, None)
                         }
+                        // The long name only belongs to this one entry
+                        seq_state = SeqState::Waiting;
                     } else {
-                        func(de, None)
+                        func(de, None);
+                        // A short entry ends any partial long name
+                        seq_state = SeqState::Waiting;
                     }
                 })
             }
